@@ -227,7 +227,7 @@ fn cmd_replay(args: &[String]) -> i32 {
     if let Some(code) = plan::replay_special(&doc, path) {
         return code;
     }
-    match plan::replay_doc(&doc, true) {
+    match plan::replay_doc(&doc, true, arg(args, "--prop").as_deref().or(doc.get("property").and_then(|p| p.as_str()))) {
         Err(e) => {
             eprintln!("bad replay file: {}", e);
             2
